@@ -318,6 +318,7 @@ def gen_deps(seed: int, n: int, uncached_p: float = 0.3) -> List[Scn]:
             else:
                 steps.append(["adv_rel", rng.choice([1, 2, 5])])
         steps += [["arrive", M]] + EPILOGUE_CLEAN
+        cfg["ctxvia"] = len(out) % 2 == 1
         out.append({"cfg": cfg, "steps": steps, "family": "deps"})
     return out
 
